@@ -483,7 +483,7 @@ def gen_chain(rng, small=False):
 
 
 def gen(rng, tier):
-    n = {"quick": 420, "thorough": 2200, "search": 1200}[tier]
+    n = {"quick": 420, "thorough": 1900, "search": 1200}[tier]
     out = []
     # long corridors are expensive (about n policy-iteration rounds): a fixed small number per run
     # (exact-rational oracle on ~150 states costs ~10 s per case; the corpus holds one more chain)
